@@ -24,31 +24,85 @@ the acting builder's own array. -/
 theorem footprint_frozen_partial (grow : Nat → Nat) (hg : ∀ n, grow n > n) (pad : α) (st : State α)
     (h : Owned st) (op : Op α) :
     ∀ a ∈ (step true grow pad st op).2, a.write = true → a.arr ∉ st.tokens.map (·.arr) := by
-  sorry
+  rw [owned_iff] at h
+  obtain ⟨hn, ht, hb⟩ := h
+  have key : ∀ k, st.heap.length ≤ k → k ∉ st.tokens.map (·.arr) := fun k hk hm => by
+    obtain ⟨s, hs, he⟩ := List.mem_map.mp hm
+    have := (ht s hs).1
+    omega
+  cases op with
+  | createBlock t =>
+    cases hs : st.tokens[t]? with
+    | none => simp only [step, hs]; intro a ha; cases ha
+    | some s => simp only [step, hs]; intro a ha; cases ha
+  | addSymbol b x =>
+    cases hs : st.builders[b]? with
+    | none => simp only [step, hs]; intro a ha; cases ha
+    | some p =>
+      obtain ⟨bs, start⟩ := p
+      simp only [step, hs]
+      intro a ha _
+      have sp := append_spec grow hg pad (hb _ (List.mem_of_getElem? hs)) x []
+      rcases sp.writes a ha with h0 | ⟨_, h1 | h2⟩
+      · cases h0
+      · rw [h1]
+        intro hm
+        rw [List.nodup_append] at hn
+        exact hn.2.2 bs.arr hm bs.arr (List.mem_map.mpr ⟨(bs, start), List.mem_of_getElem? hs, rfl⟩) rfl
+      · exact key _ h2
+  | getBlockID t x =>
+    cases hs : st.tokens[t]? with
+    | none => simp only [step, hs]; intro a ha; cases ha
+    | some s =>
+      simp only [step, hs, cloneDeep, if_true]
+      intro a ha _
+      have sp := append_spec grow hg pad (cloneDeep_valid (ht s (List.mem_of_getElem? hs))) x []
+      rcases sp.writes_fresh (ext_append st.heap [read st.heap s]) (Nat.le_refl _) a ha with h0 | h1
+      · cases h0
+      · exact key _ h1
+  | appendToken t b =>
+    cases hs : st.tokens[t]? with
+    | none => simp only [step, hs]; intro a ha; cases ha
+    | some s =>
+      cases hbs : st.builders[b]? with
+      | none => simp only [step, hs, hbs]; intro a ha; cases ha
+      | some p =>
+        obtain ⟨bs, start⟩ := p
+        simp only [step, hs, hbs, cloneDeep, if_true]
+        intro a ha _
+        have sp := appFold_spec grow hg pad (cloneDeep_valid (ht s (List.mem_of_getElem? hs))) []
+          ((read st.heap bs).drop start)
+        rcases sp.writes_fresh (ext_append st.heap [read st.heap s]) (Nat.le_refl _) a ha with h0 | h1
+        · cases h0
+        · exact key _ h1
 
 /-- D4's mechanism, pinned: a fact lookup on a token whose table has spare capacity writes
 into the token's own backing array — two concurrent lookups write the same cell. -/
 theorem getBlockID_writes_shared_pinned :
     (step false (fun n => 2 * n + 1) "_" Biscuit.C08.d4State (.getBlockID 0 "x")).2 = [{ arr := 0, idx := 3, write := true }] := by
-  sorry
+  rfl
 
 /-- **Footprint (signature payloads).** The repaired payload construction writes only a
 fresh buffer … -/
 theorem payloadFresh_writes_fresh (h : Heap α) (block : Slice) (extra : List α) :
     ∀ a ∈ (payloadFresh h block extra).2, a.arr = h.length := by
-  sorry
+  intro a ha
+  simp only [payloadFresh, List.mem_map] at ha
+  obtain ⟨i, _, rfl⟩ := ha
+  rfl
 
 /-- … and leaves every existing array untouched. -/
 theorem payloadFresh_keeps_heap (h : Heap α) (block : Slice) (extra : List α) (i : Nat) (hi : i < h.length) :
     (payloadFresh h block extra).1[i]? = h[i]? := by
-  sorry
+  simp only [payloadFresh]
+  exact List.getElem?_append_left hi
 
 /-- D13, pinned: `append(block.Block[:], alg...)` on stored block bytes with spare capacity
 writes into the stored array (here: 2 bytes in an array of capacity 4, 2 bytes appended). -/
 theorem verify_writes_shared_pinned :
     (payloadPinned (fun n => 2 * n + 1) (0 : Nat) [[7, 8, 0, 0]] { arr := 0, len := 2 } [1, 2]).2 =
       [{ arr := 0, idx := 2, write := true }, { arr := 0, idx := 3, write := true }] := by
-  sorry
+  rfl
 
 /-- **Frozen implies race-free.** If every write of every thread goes to an array private
 to that thread, and no thread touches another thread's private arrays, then no two
@@ -57,7 +111,15 @@ theorem frozen_implies_race_free (priv : Nat → Option Nat) (evs : List Event)
     (hw : ∀ e ∈ evs, e.write = true → priv e.arr = some e.thread)
     (hp : ∀ e ∈ evs, ∀ t, priv e.arr = some t → e.thread = t) :
     ∀ a ∈ evs, ∀ b ∈ evs, ¬ Conflict a b := by
-  sorry
+  intro a ha b hb hc
+  obtain ⟨hne, harr, _, hwr⟩ := hc
+  rcases hwr with hwr | hwr
+  · have h1 := hw a ha hwr
+    rw [harr] at h1
+    exact hne (hp b hb _ h1).symm
+  · have h1 := hw b hb hwr
+    rw [← harr] at h1
+    exact hne (hp a ha _ h1)
 
 /-- …and each goroutine obtains its solo result: what a thread reads from the shared
 token is what it would read running alone, because no step of any other thread changes it
@@ -65,6 +127,6 @@ token is what it would read running alone, because no step of any other thread c
 theorem shared_reads_stable (grow : Nat → Nat) (hg : ∀ n, grow n > n) (pad : α) (st : State α)
     (h : Owned st) (others : List (Op α)) (i : Nat) (s : Slice) (hs : st.tokens[i]? = some s) :
     read (run true grow pad st others).heap s = read st.heap s := by
-  sorry
+  exact (Biscuit.C08.family_frame_history grow hg pad st h others i s hs).2
 
 end Biscuit.C19
